@@ -122,7 +122,9 @@ def gen_plan(rng, tier, run):
         n = rng.choice([20000, 60000, 65000])
         payload = body + (pad * n)[:n - len(body)]
         plan["recipe"]["creator"] = "O"
-        plan["recipe"]["sections"] = plan["recipe"]["sections"][:2] + [
+        # (only SRC sections are kept: a user-data section generated for another creator would turn into a
+        # built-in format section with a payload that never was JSON / text)
+        plan["recipe"]["sections"] = [x for x in plan["recipe"]["sections"][:2] if x["kind"] == "src"] + [
             {"kind": "ud", "id": "UD", "ver": 1, "subtype": 1 if body.startswith(b"{") else 3, "comp": 0x2000, "payload": payload.hex()}]
         plan["prefixes"] = "sample"
         plan["nflips"] = 6
